@@ -98,12 +98,24 @@ class _Injected(Exception):
 
 # --------------------------------------------------------------------------------------------- file building
 
+# byte order marks a CSV file may start with: (mark, codec of the text that follows)
+BOMS = {
+    "utf-8": (b"\xef\xbb\xbf", "utf-8"),
+    "utf-16-le": (b"\xff\xfe", "utf-16-le"), "utf-16-be": (b"\xfe\xff", "utf-16-be"),
+    "utf-32-le": (b"\xff\xfe\x00\x00", "utf-32-le"), "utf-32-be": (b"\x00\x00\xfe\xff", "utf-32-be"),
+}
+# text cells of CSV files: characters str.splitlines() breaks at (file iteration does not), U+FEFF, astral characters
+CSV_TEXTS = ["x", "a\x0bb", "a\x0cb", "a\x1cb", "a\x85b", "a\u2028b", "in\ufeffside", "\U0001F600", "\U0001D538\U00020000"]
+# row / cell counts at and around powers of two (size ladder)
+SIZE_LADDER = [63, 64, 127, 129, 255, 257, 1000, 1023, 1025, 2047, 2049, 4095, 4097, 8191, 8193, 20000]
+
+
 def _block_rows(b, xlsx):
     num = (lambda v: float(v)) if xlsx else (lambda v: repr(float(v)))
     if "t" in b:
         rows = [["**" + b["t"]], ["all"], ["a", "b"], ["m", "text"]]
         for i in range(b["rows"]):
-            rows.append([num(i + 1), "x%d" % i])
+            rows.append([num(i + 1), "x%d" % i if xlsx else CSV_TEXTS[i % len(CSV_TEXTS)] + str(i)])
         if b.get("bad"):
             rows[-1][0] = "zz"
         return rows
@@ -130,9 +142,10 @@ def _write_file(scratch, f):
     path = os.path.join(scratch, f["name"])
     if f["kind"] == "csv":
         rows = _sheet_rows(f["sheets"][0], False)
-        with open(path, "w") as fh:
-            for r in rows:
-                fh.write(SEP.join("" if c is None else str(c) for c in r) + "\n")
+        text = "".join(SEP.join("" if c is None else str(c) for c in r) + "\n" for r in rows)
+        mark, codec = BOMS[f["bom"]] if f.get("bom") else (b"", "utf-8")
+        with open(path, "wb") as fh:
+            fh.write(mark + text.encode(codec))
     else:
         import openpyxl
         wb = openpyxl.Workbook()
@@ -163,8 +176,13 @@ def _reference_blocks(path, kind):
     from pdtable.io.parsers.blocks import parse_blocks
     sheets = []
     if kind == "csv":
-        with open(path) as fh:
-            sheets.append(("", [ln.rstrip("\n").split(SEP) for ln in fh]))
+        try:
+            with open(path) as fh:
+                sheets.append(("", [ln.rstrip("\n").split(SEP) for ln in fh]))
+        except UnicodeDecodeError:
+            # a UTF-16 / UTF-32 file under the platform default codec: read_csv opens it and the first pull of a line
+            # raises — one failing production with the file in scope
+            return [("", [("DECODE_ERROR", "", False)])]
     else:
         import openpyxl
         wb = openpyxl.load_workbook(path, read_only=True, data_only=True, keep_links=False)
@@ -227,7 +245,7 @@ def _gen_blocks(rng, names, allow_include=None):
 GAP_KINDS = ["missing", "dup", "txt", "loaderror"]
 
 
-def gen_scenario(rng, api, inject, pat_mode=None, gapkind=None, host_empty=None):
+def gen_scenario(rng, api, inject, pat_mode=None, gapkind=None, host_empty=None, bom=None, big_rows=None):
     """gapkind (load_files only): the k-th include names a file that does not exist / that was already read / with
     an unsupported extension / that the loader refuses (LoadError): the failure is raised by queued_load between
     two files, not while a block is produced"""
@@ -238,6 +256,10 @@ def gen_scenario(rng, api, inject, pat_mode=None, gapkind=None, host_empty=None)
     def mkfile(k, name, include=None):
         if k == "csv":
             sheets = [{"name": "", "blocks": _gen_blocks(rng, names, include)}]
+            f = {"id": len(files), "name": name, "kind": k, "sheets": sheets}
+            if bom and (api in ("read_csv:path", "load_files") or bom == "utf-8"):
+                f["bom"] = bom          # (a caller's text stream is decoded by the caller: only the UTF-8 mark there)
+            return f
         else:
             ns = rng.choice([1, 1, 2, 3])
             sheets = []
@@ -304,6 +326,12 @@ def gen_scenario(rng, api, inject, pat_mode=None, gapkind=None, host_empty=None)
             host["sheets"] = [{"name": "keep0", "blocks": []}]
         blocks = host["sheets"][0]["blocks"]
         blocks.insert(rng.randrange(len(blocks) + 1), {"d": "include", "lines": [tgt], "gap": gapkind})
+    if big_rows:
+        # one table of the first file that is read gets a row count from the size ladder
+        tabs = [b for f in files for sh in f["sheets"] for b in sh["blocks"]
+                if "t" in b and _sheet_is_read(pattern, f, sh["name"])]
+        if tabs:
+            tabs[0]["rows"] = big_rows
     has_include = any(b.get("d") == "include" for f in files for sh in f["sheets"] for b in sh["blocks"])
     folder = api == "load_files" and not has_include and rng.random() < 0.5
     return {"api": api, "inject": inject, "target": target, "files": files, "roots": roots, "pattern": pattern,
@@ -351,6 +379,12 @@ def build_model_prog(sc, refs, scratch=None):
             pts = []
             if read:
                 for (bt, name, post) in seq:
+                    if bt == "DECODE_ERROR":
+                        if state["fail_at"] is None:
+                            state["fail_at"] = state["delivered"]
+                        state["delivered"] += 1
+                        pts.append((True, post))
+                        continue
                     is_target = bt == "TABLE" and name == target
                     if is_target and skipping:
                         continue
@@ -615,10 +649,23 @@ def _good_table(name):
     return Table(pd.DataFrame({"a": [1.0, 2.0], "b": ["x", "y"]}), name=name, units=["m", "text"])
 
 
+def _big_table(name, cells):
+    """a table with at least `cells` value cells (8 numeric columns)"""
+    import numpy as np
+    import pandas as pd
+    from pdtable import Table
+    rows = -(-cells // 8)
+    data = np.arange(rows * 8, dtype=float).reshape(rows, 8)
+    return Table(pd.DataFrame(data, columns=["c%d" % i for i in range(8)]), name=name, units=["m"] * 8)
+
+
+# numbers of value cells of a workbook / file around powers of two (size ladder; 65536 = 2**16)
+CELL_LADDER = [1000, 1025, 4097, 8193, 16385, 65535, 65536, 65537, 131073]
+
 SAVE_HOWS = ("save_tz", "save_patched")    # write_excel: every table is accepted, serialising the workbook fails
 
 
-def _bad_table(api, how):
+def _bad_table(api, how, variant=0):
     import pandas as pd
     from pdtable import Table
     from pdtable.table_metadata import ColumnFormat
@@ -626,8 +673,11 @@ def _bad_table(api, how):
         return object()
     if how == "save_tz":
         # accepted by ws.append; openpyxl converts the cell only in wb.save: "Excel does not support timezones"
-        return Table(pd.DataFrame({"t": pd.to_datetime(["2020-01-01"]).tz_localize("UTC")}), name="tz",
-                     units=["datetime"])
+        import datetime as _dt
+        tz = [_dt.timezone.utc, _dt.timezone(_dt.timedelta(hours=-3, minutes=-30)),
+              _dt.timezone(_dt.timedelta(hours=5, minutes=45))][variant % 3]
+        stamps = pd.to_datetime(["2020-01-01 12:30:15.250", "1999-12-31 23:59:59.999999"]).tz_localize(tz)
+        return Table(pd.DataFrame({"t": stamps}), name="tz", units=["datetime"])
     if how == "save_patched":
         return _good_table("ok")
     if api == "write_csv":
@@ -638,8 +688,9 @@ def _bad_table(api, how):
     return Table(pd.DataFrame({"a": [1.0], "b": ["x\x01y"]}), name="bad", units=["m", "text"])
 
 
-def run_writer(api, dst_mode, n, fail_at, how, scratch):
-    """returns (states per requested table + final state, resource warnings, raised?)"""
+def run_writer(api, dst_mode, n, fail_at, how, scratch, cells=None):
+    """returns (states per requested table + final state, resource warnings, raised?).  `cells`: the first table that
+    is not the failing one is a big one with at least that many value cells."""
     from pdtable import write_csv, write_excel
     path = os.path.join(scratch, "out." + ("csv" if api == "write_csv" else "xlsx"))
     obs = Observer(scratch, {0: path})
@@ -648,7 +699,10 @@ def run_writer(api, dst_mode, n, fail_at, how, scratch):
         warnings.simplefilter("always")
         tables = [_good_table("t%d" % i) for i in range(n)]
         if fail_at is not None:
-            tables[fail_at] = _bad_table(api, how)
+            tables[fail_at] = _bad_table(api, how, variant=n + fail_at)
+        if cells:
+            big_at = next(i for i in range(n) if i != fail_at)
+            tables[big_at] = _big_table("big", cells)
         stream = None
         if dst_mode == "path":
             dst = path
@@ -903,6 +957,32 @@ def run_writers(rng, full, out, ops, pend, model_ok):
                                 ops.append({"op": "resource", "prog": {"fn": api, "src": src, "n": n},
                                             "history": writer_history(n, fail_at, how)})
                                 pend.append(("writer " + api, case, states))
+        # size ladder: files / workbooks whose number of value cells is at and around powers of two, written completely,
+        # with a table that fails when it is appended, and (Excel) with a failure while the workbook is serialised
+        if full:
+            big = [(api, dst, c, how) for api in ("write_csv", "write_excel") for dst in ("path", "file") for c in CELL_LADDER
+                   for how in (("-", "format") if api == "write_csv" else ("-", "format", "save_tz", "save_patched"))]
+        else:
+            big = [("write_excel", "path", c, "save_tz") for c in (1025, 4097, 8193, 65537)]
+            big += [("write_excel", "path", 65537, "-"), ("write_excel", "path", 65537, "save_patched"),
+                    ("write_excel", "path", 4097, "format"), ("write_excel", "pathlike", 65537, "save_tz"),
+                    ("write_excel", "file", 65537, "save_tz"), ("write_csv", "path", 8193, "format"),
+                    ("write_csv", "path", 65537, "format"), ("write_csv", "path", 65537, "-"),
+                    ("write_csv", "file", 65537, "format")]
+        for api, dst_mode, cells, how in big:
+            n = 3
+            fail_at = None if how in ("-", "save_patched") else 2      # the big table is written first
+            case = {"kind": "writer", "api": api, "dst": dst_mode, "n": n, "fail_at": fail_at, "how": how, "cells": cells}
+            states, rw = run_writer(api, dst_mode, n, fail_at, how, scratch, cells=cells)
+            oracle_writer(api, states, rw, out, case)
+            out.case(case, nontrivial=True)
+            out.count("writer_cells:%s:%d" % (api, cells))
+            out.count("writer_fail:" + (how if how != "-" else "none"))
+            if model_ok:
+                src = {"path": 0} if dst_mode in ("path", "pathlike") else {"stream": 0}
+                ops.append({"op": "resource", "prog": {"fn": api, "src": src, "n": n},
+                            "history": writer_history(n, fail_at, how)})
+                pend.append(("writer " + api, case, states))
     finally:
         with warnings.catch_warnings():
             warnings.simplefilter("ignore")
@@ -948,6 +1028,31 @@ def run(tier, seed, model_ok, translator, search=False):
                 run_scenario(sc, rng, full, out, ops, pend, model_ok)
                 if len(out.failures) >= 20:
                     break
+        # CSV files that start with a byte order mark (UTF-8: readable, the mark lands in the first cell; UTF-16 /
+        # UTF-32: the platform codec fails at the first line — an error exit with the file open), by path, through
+        # load_files, and (UTF-8 mark) as a caller's stream
+        bom_runs = [("read_csv:path", b) for b in BOMS] + [("load_files", "utf-8"), ("read_csv:file", "utf-8"),
+                                                            ("read_csv:stringio", "utf-8")]
+        bom_runs += [("load_files", b) for b in (list(BOMS)[1:] if full else [list(BOMS)[1 + seed % 4]])]
+        for rep_i in range(3 if full else 1):
+            for bi, (api, bom) in enumerate(bom_runs):
+                inject = "none" if rep_i == 0 else rng.choice(["none", "cell", "tracker_collect"])
+                sc = gen_scenario(rng, api, inject, "nopattern", bom=bom)
+                out.count("csv_bom:%s:%s" % (api.split(":")[0], bom))
+                run_scenario(sc, rng, full, out, ops, pend, model_ok)
+        # size ladder: one table with a row count at / around a power of two (always one above 1024, 4096 and 8192)
+        if full:
+            size_runs = [(api, n) for n in SIZE_LADDER for api in ("read_csv:path", "read_excel:path")]
+            size_runs += [("load_files", n) for n in (1025, 4097, 8193)]
+        else:
+            size_runs = [("read_csv:path", 1025), ("read_csv:path", 4097), ("read_csv:path", 8193),
+                         ("read_excel:path", SIZE_LADDER[seed % 9]), ("read_excel:path", 1025),
+                         ("load_files", 4097), ("read_csv:stringio", SIZE_LADDER[(seed + 3) % len(SIZE_LADDER)])]
+        for api, nrows in size_runs:
+            sc = gen_scenario(rng, api, rng.choice(["none", "cell"]), "all" if api != "read_csv:path" else None,
+                              big_rows=nrows)
+            out.count("size_ladder_rows:%s:%d" % (api.split(":")[0], nrows))
+            run_scenario(sc, rng, False, out, ops, pend, model_ok)
         # load_files: the k-th include is missing / a duplicate / a .txt / refused by the loader, under each tracker
         gap_runs = [(gk, tr) for gk in GAP_KINDS for tr in ("none", "tracker_raise", "tracker_collect")]
         if not full:
@@ -984,7 +1089,8 @@ def replay(rep):
     scratch = tempfile.mkdtemp(prefix="c19r-")
     try:
         if inp.get("kind") == "writer":
-            states, rw = run_writer(inp["api"], inp["dst"], inp["n"], inp["fail_at"], inp["how"], scratch)
+            states, rw = run_writer(inp["api"], inp["dst"], inp["n"], inp["fail_at"], inp["how"], scratch,
+                                    cells=inp.get("cells"))
             oracle_writer(inp["api"], states, rw, out, inp)
         else:
             sc = {k: inp.get(k) for k in ("api", "inject", "target", "pattern", "roots", "files", "str_path", "folder")}
